@@ -42,6 +42,10 @@ fn parse_modified_hdrs(
     let last_modified = last_modified.map(truncate_to_secs);
     let precondition_failed = if !etag::any_match(etag, req_hdrs)? {
         true
+    } else if req_hdrs.contains_key(header::IF_MATCH) {
+        // RFC 7232 section 3.4: "A recipient MUST ignore If-Unmodified-Since if the request
+        // contains an If-Match header field."
+        false
     } else if let (Some(ref m), Some(since)) =
         (last_modified, req_hdrs.get(header::IF_UNMODIFIED_SINCE))
     {
